@@ -42,6 +42,9 @@ func stripUneval(v any) any {
 }
 
 func (c07) Run(c *fw.Case) {
+	if c.Idx%6 == 5 {
+		failedCalls(c) // call history: failed calls before the case must leave nothing behind
+	}
 	r := c.R
 	doc, array := gen.UnevalSchema(r)
 	text := gen.Text(doc)
